@@ -124,6 +124,8 @@ func runC12(c *core.Ctx) {
 	c.RuleDoc("R12.5", "pool buffers are returned, once")
 	c.RuleDoc("R12.8", "the final wait re-checks the error channel when the writers' completion wins the select")
 	c.RuleDoc("R12.7", "directory entries are created in the foreground")
+	c.RuleDoc("R12.14", "name relations in package tar are tested on element boundaries")
+	c.RuleDoc("R12.15", "destination files are created with the entry's own mode")
 	c.RuleDoc("R12.13", "a PAX global header is not materialised as an entry")
 	c.RuleDoc("R12.12", "the buffer pool never provisions more buffers than its channel holds (unpacking finishes)")
 	c.RuleDoc("R12.10", "an entry is reported done only after it was created, written or handed to a writer")
@@ -147,6 +149,8 @@ func runC12(c *core.Ctx) {
 		r12EveryEntryProcessed(c, p, sh)
 		r12PoolBound(c, p, "R12.12")
 		r12SkipsGlobalHeader(c, p, sh)
+		boundaryTests(c, p, "R12.14", "tar")
+		r12CreatesWithHeaderMode(c, p, sh)
 		if fileT := p.Named("keyvalue", "file"); fileT != nil {
 			r02NoAdopt(c, p, fileT, "R12.11")
 		} else {
@@ -165,6 +169,7 @@ func runC12(c *core.Ctx) {
 	c.Floor("R12.10", 1)
 	c.Floor("R12.12", 1)
 	c.Floor("R12.13", 1)
+	c.Floor("R12.15", 1)
 	c.Floor("R12.11", 3)
 }
 
@@ -1030,4 +1035,57 @@ func r12SkipsGlobalHeader(c *core.Ctx, p *load.Program, sh *tarShape) {
 	}
 	c.Check(excluded, "R12.13", fname(fn)+"|global-header-not-processed", p.Pos(call.Pos()), "the entry processor is called only where Typeflag != TypeXGlobalHeader",
 		fmt.Sprintf("%s hands every header archive/tar returns to the entry processor, the PAX global header included: an archive written by `git archive` unpacks an extra empty file pax_global_header that is no entry of the archive's tree", fname(fn)))
+}
+
+// r12CreatesWithHeaderMode (R12.15): every call in package tar that creates a regular file on the destination passes
+// the entry's own mode (info.Mode()): a creation through a helper that fixes the mode (hackpadfs.Create: 0666) gives
+// every such entry the wrong permission bits without any error.
+func r12CreatesWithHeaderMode(c *core.Ctx, p *load.Program, sh *tarShape) {
+	create, okC := flagConst(p, "FlagCreate")
+	if !okC {
+		c.Hard("anchor: FlagCreate")
+		return
+	}
+	n := 0
+	for _, fn := range pkgFuncs(p, "tar") {
+		ord := ordinals{}
+		ssax.Instrs(fn, func(ins ssa.Instruction) {
+			cl, ok := ins.(*ssa.Call)
+			if !ok {
+				return
+			}
+			name, args := "", cl.Call.Args
+			if cl.Call.IsInvoke() {
+				name = cl.Call.Method.Name()
+			} else if callee := ssax.StaticCallee(cl); callee != nil && pkgPathOf(callee) == mod {
+				name = callee.Name()
+				if len(args) > 0 {
+					args = args[1:] // drop the FS argument of the helper
+				}
+			}
+			switch name {
+			case "Create", "WriteFullFile", "WriteFile":
+				if name == "WriteFile" && !cl.Call.IsInvoke() && len(cl.Call.Args) == 2 {
+					return // hackpadfs.WriteFile(file, data): writes to an open handle
+				}
+				n++
+				c.Bad("R12.15", fname(fn)+"|"+ord.next("creates-with-the-entry-mode"), p.Pos(cl.Pos()), fmt.Sprintf("%s creates a destination file with %s, which fixes the file's mode instead of taking the entry's: every entry created this way (an empty file) gets 0666 whatever its header says", fname(fn), name))
+			case "OpenFile":
+				if len(args) != 3 {
+					return
+				}
+				k, isK := ssax.ConstInt(args[1])
+				if !isK || k&create == 0 {
+					return
+				}
+				n++
+				mc, ok := args[2].(*ssa.Call)
+				c.Check(ok && mc.Call.IsInvoke() && mc.Call.Method.Name() == "Mode", "R12.15", fname(fn)+"|"+ord.next("creates-with-the-entry-mode"), p.Pos(cl.Pos()), "the file is created with info.Mode()",
+					fmt.Sprintf("%s creates a destination file with a mode that is not the entry's info.Mode()", fname(fn)))
+			}
+		})
+	}
+	if n == 0 {
+		c.Hard("anchor: creation of destination files in package tar")
+	}
 }
